@@ -374,7 +374,24 @@ def check(ctx):
                                          "requesting the visualisation changes another file: %s" % render(sh), c.file, c.line))
                         else:
                             # a callee that writes: its own sites are checked by C16; here require it is the visualisation writer
-                            if all("visualization" in t or "visualize" in t for t in targets):
+                            def only_graph_files(tids, _seen=None):
+                                """every filesystem mutator reachable from these callees writes OutDir/dependency-graph.{txt,dot} (whatever the callee is called)"""
+                                _seen = set() if _seen is None else _seen
+                                n_w = 0
+                                for tid in tids:
+                                    for gid in P.reachable([tid]):
+                                        if gid in _seen or gid not in P.fns:
+                                            continue
+                                        _seen.add(gid)
+                                        g2 = P.fns[gid]
+                                        for c3 in g2.calls:
+                                            if is_fs_mut(c3) and c3.bb in g2.reach_blocks:
+                                                n_w += 1
+                                                alts_ = alternatives(Sh.shape_op(g2, c3.args[0]))
+                                                if not all(a_[0] == "join" and a_[2][0] == "lit" and a_[2][1] in ("dependency-graph.txt", "dependency-graph.dot") for a_ in alts_):
+                                                    return False
+                                return n_w > 0
+                            if all("visualization" in t or "visualize" in t for t in targets) or only_graph_files(targets):
                                 r4.ok("%s: visualisation block calls %s" % (short_path(fid), short_path(c.best)))
                             else:
                                 r4.bad(V(r4.id, fid, "viz-controls:%s" % short_path(c.best),
